@@ -8,16 +8,20 @@ instance ("A") per step.  After every step
   * every other pool instance is compared with the snapshot taken when it was
     last touched (readable values by identity and by deep value, trait objects,
     handlers, declared defaults, trait names, notifier counts, default-method
-    call counters): nothing may differ;
+    call counters): nothing may differ (a default that merely got materialised
+    with the declared value is accepted: the readable value did not change);
   * every recorder entry logged during the step must belong to A (static
     `_x_changed` / `_anytrait_changed`, `on_trait_change`, `observe`);
+  * the classes are inspected (class_traits(), public namespace, declared
+    defaults, notifier census) -- effects of the step;
   * a fresh instance of every class of the family is created, every trait is
     read twice: declared default (literal in the spec), silent, second read
-    identical, default method / factory ran exactly once, mutable defaults
+    identical, default method / factory ran at most once, mutable defaults
     not shared with any pool instance, the previous fresh instance or the
-    object stored in the class trait;
-  * the classes are inspected (class_traits(), namespace, declared defaults,
-    notifier census).
+    object stored in the class trait; half of the fresh instances get
+    on_trait_change / observe recorders attached before the first read;
+  * the pool and the classes are inspected again -- effects of what the fresh
+    instances did (reported under the op label "fresh-instance").
 
 Objects are keyed by serial numbers (the id -> serial map only ever holds
 objects the history keeps alive).  Wildcard-name resolution is kept out of the
@@ -28,18 +32,20 @@ import copy
 import warnings
 
 from traits.api import (HasTraits, Any, Int, Str, List, Dict, Set, Instance, Tuple, Union,
-                        push_exception_handler)
+                        ComparisonMode, push_exception_handler)
 from traits.observation.api import push_exception_handler as obs_push_exception_handler
+from traits.observation.api import trait as obs_trait
 
 from vf.util import short
 
 META = {
     "level": "exploration",
     "rule": ("case = one history: a freshly built class family (Base/Sub/SubSub x with/without static "
-             "handlers; 17 declared traits covering constant, Any([])/Any({}) copies, List/Dict/Set "
+             "handlers; 20 declared traits covering constant, Any([])/Any({}) copies, List/Dict/Set "
              "objects, Instance(X,()) / Instance(X,args,kw), Any(factory=...) with and without args, "
              "_x_default methods (list/int/dict), Tuple(List(Int),Int) and Union(List(Int),Int) dynamic "
-             "defaults, subclass overrides by class-body value and by _x_default), a pool of 2-6 "
+             "defaults, comparison_mode none/identity variants, subclass overrides by class-body value and "
+             "by _x_default), a pool of 2-6 "
              "instances of 1-3 of the classes created at different times (half of them with "
              "on_trait_change/observe recorders attached), 15 (quick) / 15-25 (thorough) steps drawn from "
              "{read, mutate own container, assign, del, on_trait_change add/remove, observe add/remove, "
@@ -50,20 +56,23 @@ META = {
              "target, mechanisms that fired) signatures of steps."),
     "phases": [{"name": "main", "flavour": "P", "shards": 16}],
     "gates": {
-        "quick": {"evaluations": 30000, "steps": 8000, "sibling_inspections": 10000,
-                  "fresh_instances": 8000, "class_inspections": 8000,
-                  "first_reads": 50000, "first_reads_static": 15000, "first_reads_otc": 3000,
-                  "first_reads_observe": 3000, "default_method_runs": 15000,
-                  "own_mutations": 800, "handler_events_on_target": 2000,
-                  "liveness_events": 3000, "add_trait_ops": 500, "registrations": 800,
-                  "sharing_comparisons": 100000},
-        "thorough": {"evaluations": 1200000, "steps": 350000, "sibling_inspections": 400000,
-                     "fresh_instances": 350000, "class_inspections": 350000,
-                     "first_reads": 2000000, "first_reads_static": 600000, "first_reads_otc": 120000,
-                     "first_reads_observe": 120000, "default_method_runs": 600000,
-                     "own_mutations": 30000, "handler_events_on_target": 80000,
-                     "liveness_events": 120000, "add_trait_ops": 20000, "registrations": 30000,
-                     "sharing_comparisons": 4000000},
+        "quick": {"evaluations": 100000, "steps": 15000, "sibling_inspections": 30000,
+                  "fresh_instances": 40000, "class_inspections": 40000, "first_reads": 800000,
+                  "pool_first_reads": 50000, "first_reads_static": 500000, "first_reads_otc": 400000,
+                  "first_reads_observe": 400000, "later_reads": 15000, "default_method_runs": 200000,
+                  "default_factory_runs": 100000, "own_mutations": 3000,
+                  "handler_events_on_target": 4000, "liveness_events": 100000, "add_trait_ops": 1500,
+                  "remove_trait_ops": 300, "registrations": 100000, "instances_created": 800,
+                  "sharing_comparisons": 800000},
+        "thorough": {"evaluations": 2000000, "steps": 300000, "sibling_inspections": 600000,
+                     "fresh_instances": 800000, "class_inspections": 800000, "first_reads": 16000000,
+                     "pool_first_reads": 1000000, "first_reads_static": 10000000,
+                     "first_reads_otc": 8000000, "first_reads_observe": 8000000, "later_reads": 300000,
+                     "default_method_runs": 4000000, "default_factory_runs": 2000000,
+                     "own_mutations": 60000, "handler_events_on_target": 80000,
+                     "liveness_events": 2000000, "add_trait_ops": 30000, "remove_trait_ops": 6000,
+                     "registrations": 2000000, "instances_created": 16000,
+                     "sharing_comparisons": 16000000},
     },
     "assumptions": [
         "the declared default of every trait of the harness classes is the literal written in SPEC "
@@ -207,6 +216,10 @@ BASE_SPEC = {
     "dobj":  ("method-any-dict", "dict", {"m": 1}, "method", "dict"),
     "tup":   ("tuple-dynamic", "tuple", ([], 0), None, "tup"),
     "un":    ("union-dynamic", "TraitListObject", [], None, "union"),
+    # comparison_mode none / identity: the Uninitialized filter is the only guard of a default read
+    "cmn":   ("trait-list-cmp-none", "TraitListObject", [6], None, "list"),
+    "cmi":   ("constant-cmp-identity-int", "int", 6, None, "int"),
+    "cmd":   ("method-cmp-none-dict", "dict", {"n": 1}, "method", "dict"),
 }
 SUB_SPEC = dict(BASE_SPEC)
 SUB_SPEC.update({
@@ -242,7 +255,9 @@ def family(kind):
         return "dynamic-compound"
     return "container-object"
 
+
 EXTRA_PROBE = ("extra0", "extra1", "extra1_items", "extra2")
+EVENT_NAMES = ("trait_added", "trait_modified")
 
 
 def extra_def(name, k):
@@ -289,6 +304,13 @@ def build(static):
             dobj = Any
             tup = Tuple(List(Int), Int)
             un = Union(List(Int), Int)
+            cmn = List(Int, [6], comparison_mode=ComparisonMode.none)
+            cmi = Int(6, comparison_mode=ComparisonMode.identity)
+            cmd = Any(comparison_mode=ComparisonMode.none)
+
+            def _cmd_default(self):
+                hub.dcall(self, "cmd")
+                return {"n": 1}
 
             def _dyn_default(self):
                 hub.dcall(self, "dyn")
@@ -320,6 +342,9 @@ def build(static):
 
                 def _inst_changed(self, new):
                     hub.static("static", self, "inst", None, new)
+
+                def _cmn_changed(self, old, new):
+                    hub.static("static", self, "cmn", old, new)
 
                 def _ad_changed(self):
                     hub.static("static", self, "ad", None, None)
@@ -532,10 +557,13 @@ class History:
         return r
 
     OTC_NAMES = ("c", "st", "al", "l", "l_items", "li", "d", "d_items", "s", "s_items", "inst",
-                 "dyn", "dyn_items", "dc", "tup", "un", "fac", "dobj", None, None, "inst.z", "l[]")
+                 "dyn", "dyn_items", "dc", "tup", "un", "fac", "dobj", None, None, "inst.z", "l[]",
+                 "cmn", "cmi", "cmd", "cmn_items")
     OBS_EXPRS = ("c", "st", "al", "l", "l.items", "l:items", "li.items", "d.items", "s.items",
                  "inst", "inst.z", "inst:z", "dyn", "dyn.items", "dc", "tup", "un", "fac", "dobj",
-                 "ad", "fac2")
+                 "ad", "fac2", "cmn", "cmn.items", "cmi", "cmd",
+                 # optional named traits: hooked when (and where) the instance trait is added
+                 "extra0?", "extra1?", "extra1?.items", "extra2?")
 
     def reg_otc(self, r, name):
         h = HUB.otc_handler(r.serial, name)
@@ -546,17 +574,37 @@ class History:
         r.regs.append(("otc", name, h))
         self.ctx.count("registrations")
 
+    @staticmethod
+    def obs_expr(expr):
+        """'name?' / 'name?.items' are spelled with expression objects
+        (optional named trait; the text mini-language has no such form)."""
+        if "?" not in expr:
+            return expr
+        name, _, rest = expr.partition("?")
+        e = obs_trait(name, optional=True)
+        if rest == ".items":
+            e = e.list_items(optional=True)
+        return e
+
     def reg_obs(self, r, expr):
         h = HUB.obs_handler(r.serial, expr)
-        r.obj.observe(h, expr)
+        r.obj.observe(h, self.obs_expr(expr))
         r.regs.append(("observe", expr, h))
         self.ctx.count("registrations")
 
     def attach_recorders(self, r, rng):
         for name in rng.sample(self.OTC_NAMES, rng.randint(1, 5)):
-            self.reg_otc(r, name)
+            try:
+                self.reg_otc(r, name)
+            except Exception as e:
+                self.fail("op-raised/on_trait_change/%s" % type(e).__name__,
+                          "#%d.on_trait_change(h, %r) on an untouched instance raised %r" % (r.serial, name, e))
         for expr in rng.sample(self.OBS_EXPRS, rng.randint(1, 5)):
-            self.reg_obs(r, expr)
+            try:
+                self.reg_obs(r, expr)
+            except Exception as e:
+                self.fail("op-raised/observe/%s" % type(e).__name__,
+                          "#%d.observe(h, %r) on an untouched instance raised %r" % (r.serial, expr, e))
 
     # -- snapshots -------------------------------------------------------------
     def take_snap(self, r):
@@ -578,6 +626,10 @@ class History:
         for n in EXTRA_PROBE:
             if n not in s.traits:
                 s.traits[n] = o.trait(n)
+        for n in EVENT_NAMES:
+            t = o.trait(n)
+            s.traits[n] = t
+            s.ncounts[n] = ncount(t)
         s.tn = sorted(o.trait_names())
         try:
             s.onot = len(o._notifiers(False) or ())
@@ -596,8 +648,17 @@ class History:
         for n in r.names():
             kind = r.dflt[n][0]
             cur = d.get(n, ABSENT)
-            if cur is not s.vals[n]:
-                what = ("default-materialised" if s.vals[n] is ABSENT else
+            if cur is not s.vals[n] and s.vals[n] is ABSENT and norm(cur) == r.model[n] \
+                    and type(cur).__name__ == r.dflt[n][1]:
+                # the sibling's default was materialised by the step: its readable value
+                # (the declared default) did not change, which is all the statement asks
+                ctx.count("sibling_default_materialised")
+                s.vals[n] = cur
+                k = (r.serial, n)
+                if HUB.dcalls.get(k, 0) - s.dcalls.get(k, 0) == 1:
+                    s.dcalls[k] = HUB.dcalls[k]
+            elif cur is not s.vals[n]:
+                what = ("default-materialised-wrong" if s.vals[n] is ABSENT else
                         "value-removed" if cur is ABSENT else "value-replaced")
                 self.fail("isolation/%s/%s/%s" % (what, op, family(kind)),
                           "instance #%d.%s: stored value %s (was %s, now %s)"
@@ -617,6 +678,15 @@ class History:
                 self.fail("isolation/declared-default-changed/%s/%s" % (op, family(kind)),
                           "instance #%d: trait(%r).default_value() is %s, was %s"
                           % (r.serial, n, short(dvnorm(t), 80), short(s.dv[n], 80)), name=n)
+            if ncount(t) != s.ncounts[n]:
+                self.fail("isolation/notifier-count-changed/%s" % op,
+                          "instance #%d: trait(%r) has %r notifiers, had %r"
+                          % (r.serial, n, ncount(t), s.ncounts[n]), name=n)
+        for n in EVENT_NAMES:
+            t = o.trait(n)
+            if t is not s.traits[n]:
+                self.fail("isolation/trait-object-changed/%s" % op,
+                          "instance #%d: trait(%r) is another object" % (r.serial, n), sibling=r.serial, name=n)
             if ncount(t) != s.ncounts[n]:
                 self.fail("isolation/notifier-count-changed/%s" % op,
                           "instance #%d: trait(%r) has %r notifiers, had %r"
@@ -693,13 +763,16 @@ class History:
                       "#%d.%s (%s): first read returned %s %s, declared default is %s %s"
                       % (r.serial, n, r.cname, type(v).__name__, brief(v), tname, short(r.model[n], 60)),
                       name=n)
+        # "computed once": never more than one run per first read (a run count of
+        # zero is not judged here -- laziness is not part of the statement; a
+        # memoised result is caught by the sharing checks)
         want = 1 if counter == "method" else 0
-        if dd != want:
-            self.fail("default-method/ran-%s" % ("twice" if dd > want else "never"),
+        if dd > want:
+            self.fail("default-method/ran-more-than-once",
                       "#%d.%s: _%s_default ran %d times for one first read" % (r.serial, n, n, dd), name=n)
         df, dg = HUB.fac2 - f0, FOO_COUNT[0] - g0
-        if df != (1 if counter == "fac2" else 0) or dg != (1 if counter == "foo" else 0):
-            self.fail("default-factory/call-count/%s" % family(kind),
+        if df > (1 if counter == "fac2" else 0) or dg > (1 if counter == "foo" else 0):
+            self.fail("default-factory/ran-more-than-once/%s" % family(kind),
                       "#%d.%s: factory ran %d times, Foo() created %d times for one first read"
                       % (r.serial, n, df, dg), name=n)
         v2 = getattr(o, n)
@@ -707,7 +780,7 @@ class History:
             self.fail("later-read/not-identical/%s" % family(kind),
                       "#%d.%s: second read returned another object (%s then %s)"
                       % (r.serial, n, brief(v), brief(v2)), name=n)
-        if HUB.dcalls.get(key, 0) - d0 != want or HUB.fac2 - f0 != df or FOO_COUNT[0] - g0 != dg:
+        if HUB.dcalls.get(key, 0) - d0 != dd or HUB.fac2 - f0 != df or FOO_COUNT[0] - g0 != dg:
             self.fail("later-read/default-recomputed/%s" % family(kind),
                       "#%d.%s: default method/factory ran again on the second read" % (r.serial, n), name=n)
         if len(HUB.log) != nlog:
@@ -717,8 +790,10 @@ class History:
         if where != "fresh":
             ctx.count("pool_first_reads")
             ctx.count("pool_first_reads/" + kind.split("-")[0])
-        if want:
+        if dd:
             ctx.count("default_method_runs")
+        if df or dg:
+            ctx.count("default_factory_runs")
         if self.static:
             ctx.count("first_reads_static")
         mechs = set(x[0] for x in r.regs)
@@ -732,20 +807,20 @@ class History:
     def fresh_check(self, cname, baseline=False):
         ctx = self.ctx
         rng = self.rng
+        step_op = self.op
         del HUB.log[:]
-        d_before = len(HUB.dcalls)
         r = self.new_rec(cname)
         where = "fresh"
         try:
-            if HUB.log or len(HUB.dcalls) != d_before:
+            if HUB.log:
                 self.fail("fresh/construction-reached-handler",
-                          "constructing %s() fired %r / ran default methods" % (cname, HUB.log[:2]))
+                          "constructing %s() reached a handler: %r" % (cname, HUB.log[:2]))
             o = r.obj
             if baseline:
-                self.ctraits[cname] = {n: o.trait(n) for n in NAMES}
+                self.ctraits[cname] = {n: o.trait(n) for n in NAMES + list(EVENT_NAMES)}
                 self.tnames[cname] = sorted(o.trait_names())
             else:
-                for n in NAMES:
+                for n in NAMES + list(EVENT_NAMES):
                     if o.trait(n) is not self.ctraits[cname][n]:
                         self.fail("fresh/trait-object-changed/%s" % self.op,
                                   "a fresh %s() has another trait object for %r" % (cname, n), name=n)
@@ -758,6 +833,8 @@ class History:
                     if o.trait(n) is not None:
                         self.fail("fresh/instance-trait-leaked/%s" % self.op,
                                   "a fresh %s() sees instance trait %r" % (cname, n), name=n)
+            # from here on the fresh instance itself is the actor
+            self.op = "fresh-instance"
             attach = (not baseline) and rng.random() < 0.5
             if attach:
                 self.attach_recorders(r, rng)
@@ -772,8 +849,13 @@ class History:
             # sharing: with the pool, the previous fresh instance, the class trait
             prev = self.prev_fresh.get(cname, {})
             for n in NAMES:
-                kind = r.cspec[n][0]
-                if r.cspec[n][1] in IMMUTABLE_TYPES:
+                kind, tname, plain = r.cspec[n][:3]
+                if type(got[n]).__name__ != tname or norm(got[n]) != plain:
+                    self.fail("default-read/wrong-default/%s" % kind,
+                              "fresh %s().%s is %s %s, declared default is %s %s"
+                              % (cname, n, type(got[n]).__name__, brief(got[n]), tname, short(plain, 60)),
+                              name=n)
+                if tname in IMMUTABLE_TYPES:
                     continue
                 parts = mutable_parts(got[n])
                 stored_default = self.ctraits[cname][n].default_value()[1]
@@ -814,13 +896,29 @@ class History:
         finally:
             HUB.unbind(r.obj)
         del HUB.log[:]
+        self.op = step_op
+
+    def after_step(self):
+        """Classes (effects of the step), fresh instances, then siblings and
+        classes again (effects of what the fresh instances did)."""
+        step_op = self.op
+        for cname in self.family:
+            self.class_check(cname)
+        for cname in self.family:
+            self.fresh_check(cname)
+        self.op = "fresh-instance"
+        for r in self.pool:
+            self.inspect_other(r)
+        for cname in self.family:
+            self.class_check(cname)
+        self.op = step_op
 
     # -- classes ---------------------------------------------------------------------
     def class_check(self, cname, baseline=False):
         cls = self.classes[cname]
         ct = cls.class_traits()
         ids = {n: t for n, t in ct.items()}
-        vs = set(vars(cls))
+        vs = set(k for k in vars(cls) if not k.startswith("_"))
         cdv = {n: dvnorm(t) for n, t in self.ctraits[cname].items()}
         cen = {n: ncount(t) for n, t in self.ctraits[cname].items()}
         raw = getattr(cls, "__class_traits__", None)
@@ -840,9 +938,10 @@ class History:
         if vs != self.vars0[cname]:
             self.fail("class/namespace-changed/%s" % op,
                       "vars(%s) changed by %r" % (cname, sorted(vs ^ self.vars0[cname])))
-        for n in NAMES:
+        for n in self.ctraits[cname]:
             if cdv[n] != self.cdv0[cname][n]:
-                self.fail("class/declared-default-changed/%s/%s" % (op, family(SPECS[cname][n][0])),
+                self.fail("class/declared-default-changed/%s/%s"
+                          % (op, family(SPECS[cname][n][0]) if n in SPECS[cname] else "event"),
                           "%s: class trait %r default_value() is %s, was %s"
                           % (cname, n, short(cdv[n], 80), short(self.cdv0[cname][n], 80)), name=n)
             if cen[n] != self.census0[cname][n]:
@@ -1022,7 +1121,7 @@ class History:
                 self.op = op
                 expr = rng.choice(self.OBS_EXPRS)
                 self.trace.append((op, A.serial, expr))
-                first = expr.replace(":", ".").split(".")[0]
+                first = expr.replace(":", ".").replace("?", "").split(".")[0]
                 touch = (first,)
                 self.guard_counters(A)
                 try:
@@ -1051,12 +1150,12 @@ class History:
                             else:
                                 o.on_trait_change(reg[2], reg[1], remove=True)
                         else:
-                            o.observe(reg[2], reg[1], remove=True)
+                            o.observe(reg[2], self.obs_expr(reg[1]), remove=True)
                     except Exception as e:
                         detail = type(e).__name__
                         ctx.count("registration_exceptions")
                         ctx.count("registration_exceptions/%s/%s" % (op, detail))
-                    first = (reg[1] or "").replace("[]", "").replace(":", ".").split(".")[0]
+                    first = (reg[1] or "").replace("[]", "").replace(":", ".").replace("?", "").split(".")[0]
                     self.check_counters(A, (first,), epoch=True)
                     sigparts = (op, reg[0], reg[1], detail)
             elif op == "add_trait":
@@ -1134,10 +1233,8 @@ class History:
             sigparts = sigparts + (A.cname, regm, tuple(sorted(mechs)))
         ctx.count("steps")
         ctx.sig(self.static, *sigparts)
-        # fresh instances and classes
-        for cname in self.family:
-            self.fresh_check(cname)
-            self.class_check(cname)
+        # classes, fresh instances, siblings again
+        self.after_step()
 
     # counters of A around an operation that is not a plain read
     def guard_counters(self, A):
@@ -1165,7 +1262,6 @@ class History:
 
     # -- driver -------------------------------------------------------------------------
     def run(self, nsteps):
-        ctx = self.ctx
         rng = self.rng
         HUB.reset()
         self.static = rng.random() < 0.6
@@ -1184,6 +1280,8 @@ class History:
             self.pool.append(r)
         for r in self.pool:
             self.inspect_own(r)
+        self.op = "new"
+        self.after_step()
         for _ in range(nsteps):
             self.step()
         # final sweep: every instance, every name, whatever happened to the siblings
@@ -1197,9 +1295,7 @@ class History:
                 if r is not A:
                     self.inspect_other(r)
             self.inspect_own(A)
-        for cname in self.family:
-            self.fresh_check(cname)
-            self.class_check(cname)
+        self.after_step()
 
 
 class _NullRng:
@@ -1230,6 +1326,16 @@ def run(ctx):
                 H.run(nsteps)
             except Violation:
                 pass
+            except Exception as e:      # an exception escaping traits during a valid operation
+                import traceback
+                tb = traceback.extract_tb(e.__traceback__)
+                inner = tb[-1]
+                try:
+                    H.fail("unexpected-exception/%s/%s" % (H.op, type(e).__name__),
+                           "%r escaped at %s:%s" % (e, inner.filename.split("/")[-1], inner.name),
+                           traceback=traceback.format_exc()[-1500:])
+                except Violation:
+                    pass
             if h // ctx.nshards < 2:
                 ctx.sample({"static_handlers": H.static, "classes": list(H.use),
                             "history": H.trace[:8]})
